@@ -350,6 +350,7 @@ pub enum EvK {
     ClockJump(u64),
     InputReturned,
     TtWriteAfterAbort { site: Site, key: String, score: i16, depth: u8, nodes: u64, budget: Option<u64> },
+    TtEntryFromUnfinishedNode { key: String, score: i16, depth: u8, nodes: u64, count: u64 },
     TtDiffAfterAbort(u64),
 }
 
@@ -394,6 +395,9 @@ pub struct ThreadRec {
     pub inserts_after_abort: u64,
     /// inserts made when the node counter had already reached the node budget
     pub inserts_over_budget: u64,
+    /// entries still in the cache at thread end that an interrupted, unfinished node had
+    /// published before going on with its moves
+    pub entries_from_unfinished_nodes: u64,
     pub abort_sites: [u64; 4],
 }
 
@@ -507,6 +511,26 @@ pub struct Kernel {
 thread_local! {
     static TID: Cell<usize> = const { Cell::new(NONE) };
     static LAST_PANIC: Cell<Option<String>> = const { Cell::new(None) };
+    static NODES: std::cell::RefCell<NodeTrack> = std::cell::RefCell::new(NodeTrack::default());
+}
+
+/// C13, open nodes. The engine brackets its work on one node of the search tree with
+/// `node_enter` / `node_exit` (a scope object dropped on every way out). A node that has
+/// written a cache entry and then goes on to make another move has *published* an interim
+/// value; that is harmless if the node finishes and writes again, but if the search is
+/// interrupted and the node is left without another write, the interim value - computed from
+/// a part of the node's moves - stays in the cache. Writes made outside any node scope (the
+/// root, which legitimately writes at the end of every iteration) are not tracked.
+#[derive(Default)]
+struct NodeTrack {
+    seq: u64,
+    aborted: bool,
+    /// per open node: what it last wrote (key, insert sequence number, score, depth, node
+    /// counter) and whether it made another move afterwards
+    open: Vec<(Option<(ZKey, u64, i16, u8, u64)>, bool)>,
+    last_insert: std::collections::HashMap<ZKey, u64>,
+    /// entries published by nodes that were left because of an interruption
+    candidates: Vec<(ZKey, u64, i16, u8, u64)>,
 }
 
 struct AbortRun;
@@ -528,6 +552,7 @@ fn new_trec() -> ThreadRec {
         inserts_before_abort: [0; 3],
         inserts_after_abort: 0,
         inserts_over_budget: 0,
+        entries_from_unfinished_nodes: 0,
         abort_sites: [0; 4],
     }
 }
@@ -798,6 +823,7 @@ impl Kernel {
 
     fn thread_main(&'static self, tid: usize, f: Box<dyn FnOnce() + Send + 'static>) {
         TID.with(|t| t.set(tid));
+        NODES.with(|n| *n.borrow_mut() = NodeTrack::default());
         // Wait until scheduled for the first time.
         {
             let g = self.lock();
@@ -860,6 +886,33 @@ impl Kernel {
         if let Some(msg) = panicked {
             st.threads[tid].rec.panicked = Some(msg.clone());
             self.push_ev(st, tid, EvK::Panic(msg));
+        }
+        // C13: did an interrupted, unfinished node leave an interim entry behind?
+        let cands: Vec<(ZKey, u64, i16, u8, u64)> = NODES.with(|n| {
+            let mut n = n.borrow_mut();
+            let last = std::mem::take(&mut n.last_insert);
+            n.candidates
+                .drain(..)
+                .filter(|c| last.get(&c.0) == Some(&c.1))
+                .collect()
+        });
+        if !cands.is_empty() {
+            let present = tt_clone();
+            let left: Vec<&(ZKey, u64, i16, u8, u64)> = cands.iter().filter(|c| present.contains_key(&c.0)).collect();
+            if let Some(f) = left.first() {
+                st.threads[tid].rec.entries_from_unfinished_nodes = left.len() as u64;
+                self.push_ev(
+                    st,
+                    tid,
+                    EvK::TtEntryFromUnfinishedNode {
+                        key: f.0.to_string(),
+                        score: f.2,
+                        depth: f.3,
+                        nodes: f.4,
+                        count: left.len() as u64,
+                    },
+                );
+            }
         }
         // C13: what did this thread leave behind after it saw an interruption?
         if let Some(snap) = st.threads[tid].tt_snap.take() {
@@ -1442,7 +1495,29 @@ impl Sim for Kernel {
         self.clock.fetch_add(self.cost_ns.load(Relaxed), Relaxed)
     }
 
+    fn node_enter(&self) {
+        NODES.with(|n| n.borrow_mut().open.push((None, false)));
+    }
+
+    fn node_exit(&self) {
+        NODES.with(|n| {
+            let mut n = n.borrow_mut();
+            if let Some((Some(p), true)) = n.open.pop() {
+                if n.aborted {
+                    n.candidates.push(p);
+                }
+            }
+        });
+    }
+
     fn work_tick(&self) {
+        NODES.with(|n| {
+            if let Some(o) = n.borrow_mut().open.last_mut() {
+                if o.0.is_some() {
+                    o.1 = true;
+                }
+            }
+        });
         let t = self.ticks.fetch_add(1, Relaxed) + 1;
         let cur = self.cur.load(Relaxed);
         if cur < NT {
@@ -1525,6 +1600,15 @@ impl Sim for Kernel {
         if me == NONE {
             return;
         }
+        NODES.with(|n| {
+            let mut n = n.borrow_mut();
+            n.seq += 1;
+            let seq = n.seq;
+            n.last_insert.insert(key, seq);
+            if let Some(o) = n.open.last_mut() {
+                *o = (Some((key, seq, entry.score, entry.depth, nodes)), false);
+            }
+        });
         let mut g = self.lock();
         if let Some(st) = g.as_mut() {
             if budget.is_some_and(|b| nodes >= b) {
@@ -1560,6 +1644,7 @@ impl Sim for Kernel {
         if ply == u8::MAX {
             return; // the ply cap is a horizon, not an interruption
         }
+        NODES.with(|n| n.borrow_mut().aborted = true);
         let mut g = self.lock();
         if let Some(st) = g.as_mut() {
             let si = match site {
